@@ -618,6 +618,10 @@ class AnnotateE2EStream(Stream):
             if rng.random() < 0.12 and files[0]["kind"] != "mk":
                 files.append({"kind": files[0]["kind"], "dir": files[0]["dir"], "link": rng.choice([0, 0, -1])})
             case = {"files": files, "opts": self._opts(rng)}
+            if files[-1].get("link") == 0 and rng.random() < 0.5:
+                # the link is named, the file it points to is not: nothing may happen to that file
+                case["named"] = [fname(i, f) for i, f in enumerate(files) if i != 0]
+                rng.shuffle(case["named"])
             if rng.random() < 0.85:
                 self._finish(rng, case, "random")
                 self._repair(rng, case)
@@ -672,6 +676,29 @@ class AnnotateE2EStream(Stream):
             case["named"] = rng.choice([["."], ["src"], ["src/deep"] + [x for x in named if not x.startswith("src/deep/")],
                                         ["src"] + [x for x in named if not x.startswith("src/")]])
             self._repair(rng, case)
+            yield case
+        # 3a. line mode: --multi-line / --single-line where the (detected or forced) style offers both forms, and where it offers one
+        both = ["cpp", "rs", "jl"]
+        for _ in range(300 if thorough else 30):
+            n = rng.randint(1, 4)
+            o = self._opts(rng)
+            for k in ("single", "multi", "style", "tmpl", "tmpl_arg", "skip"):
+                o.pop(k, None)
+            self._request(rng, o)
+            r = rng.random()
+            if r < 0.5:
+                files = [self._file(rng, both + (["c", "html", "ml", "j2"] if rng.random() < 0.3 else [])) for _ in range(n)]
+                o["multi"] = True
+            elif r < 0.7:
+                files = [self._file(rng, both + (["py", "tex", "hs"] if rng.random() < 0.3 else [])) for _ in range(n)]
+                o["single"] = True
+            else:
+                files = [self._file(rng, COMMENTABLE + ["foo", "csv", "png"]) for _ in range(n)]
+                o["style"] = rng.choice(["cpp", "julia"])
+                o[rng.choice(["multi", "multi", "single"])] = True
+            case = self._finish(rng, {"files": files, "opts": o}, "line-mode")
+            if rng.random() < 0.8:
+                self._repair(rng, case)
             yield case
         # 4. usage errors, each kind at every position of a three-file invocation
         usage = ["mutex-line", "mutex-year", "mutex-force-fallback", "mutex-force-skip", "mutex-fallback-skip", "mutex-style-skip", "noinfo", "nopath",
